@@ -1,5 +1,6 @@
 import Mixin.Facts.ExpectedC23
 import Mixin.Model.CacheQueue
+import Mixin.Model.CacheKernel
 /-!
 # C23 — only queueing makes a cached transaction eligible for proposal
 
@@ -476,5 +477,194 @@ example : (step (step (step empty (.queue 2 1 9)).1 (.remove [2])).1 (.get 2)).2
 /-- the quirk the model inherits from the code: removal keeps the queue key, so the unconsumed
     queueing survives and a later plain `store` makes the hash retrievable again -/
 example : (retrieve (store (remove (enqueue empty 1 1 5) [1]) 1 2) 5).2 = [(1, 2)] := by decide
+
+/-! ## the kernel callers (kernel/node.go, kernel/queue.go) -/
+
+open Mixin.CacheKernel
+
+/-- index invariant of the cache: a hash with an order key has a queue key and a body -/
+def OrderInv (s : S) : Prop :=
+  ∀ h ∈ s.order, (∃ ts, (ts, h) ∈ s.queue) ∧ ∃ v, lookup h s.payload = some v
+
+/-- `h` will be returned by an exhaustive retrieval: it has a queue key and a body -/
+def Eligible (s : S) (h : Hash) : Prop :=
+  (∃ ts, (ts, h) ∈ s.queue) ∧ ∃ v, lookup h s.payload = some v
+
+theorem eligible_retrieved (s : S) (h : Hash) (he : Eligible s h) (limit : Nat)
+    (hl : s.queue.length ≤ limit) : ∃ v, (h, v) ∈ (retrieve s limit).2 := by
+  rcases he with ⟨hq, v, hv⟩
+  exact ⟨v, scan_complete s.payload h v hv s.queue limit [] hl (by simp) hq⟩
+
+theorem mem_insertKey_of_mem (k x : QKey) (q : List QKey) (hx : x ∈ q) : x ∈ insertKey k q := by
+  induction q with
+  | nil => simp at hx
+  | cons y ys ih =>
+    simp only [insertKey]
+    split
+    · exact List.mem_cons_of_mem _ hx
+    · split
+      · exact hx
+      · rcases List.mem_cons.mp hx with h1 | h1
+        · subst h1; simp
+        · exact List.mem_cons_of_mem _ (ih h1)
+
+theorem lookup_put_other (h h' : Hash) (v : Body) (m : List (Hash × Body)) (hne : h' ≠ h) :
+    lookup h (put h' v m) = lookup h m := by
+  have := lookup_filter h (fun k => k ≠ h') m
+  simp only [put, lookup, erase, hne, if_false]
+  have hh : (h ≠ h') := fun hc => hne hc.symm
+  simpa [hh] using this
+
+/-- queueing never takes eligibility away, and makes its own hash eligible when the index
+    invariant holds -/
+theorem enqueue_eligible (s : S) (hI : OrderInv s) (h : Hash) (v : Body) (ts : Nat) :
+    OrderInv (enqueue s h v ts) ∧ Eligible (enqueue s h v ts) h ∧
+    ∀ h', Eligible s h' → Eligible (enqueue s h v ts) h' := by
+  unfold enqueue
+  by_cases ho : h ∈ s.order
+  · simp only [ho, if_true]
+    exact ⟨hI, hI h ho, fun _ he => he⟩
+  · simp only [ho, if_false]
+    have keep : ∀ h', Eligible s h' → Eligible
+        { queue := insertKey (ts, h) s.queue, order := h :: s.order, payload := put h v s.payload } h' := by
+      intro h' he
+      rcases he with ⟨⟨t', hq⟩, v', hv⟩
+      refine ⟨⟨t', mem_insertKey_of_mem _ _ _ hq⟩, ?_⟩
+      by_cases hh : h = h'
+      · subst hh; exact ⟨v, lookup_put_self _ _ _⟩
+      · exact ⟨v', by simp only; rw [lookup_put_other h' h v s.payload hh]; exact hv⟩
+    have self : Eligible
+        { queue := insertKey (ts, h) s.queue, order := h :: s.order, payload := put h v s.payload } h :=
+      ⟨⟨ts, mem_insertKey _ _⟩, v, lookup_put_self _ _ _⟩
+    refine ⟨?_, self, keep⟩
+    intro h' hm
+    rcases List.mem_cons.mp hm with hm | hm
+    · subst hm; exact self
+    · exact keep h' (hI h' hm)
+
+/-- **kernel_queue_makes_eligible_unless_finalized**: `Node.CacheQueueTransactions` skips exactly
+    the finalized transactions. Every other transaction of the call — absent, cached only, or
+    persisted but not finalized (a verified proposal that was abandoned) — is eligible afterwards:
+    an exhaustive retrieval returns it. -/
+theorem kernel_queue_makes_eligible_unless_finalized (txs : List (Hash × Body × Nat)) :
+    ∀ k : K, OrderInv k.c →
+      OrderInv (kernelQueue k txs).c ∧ (kernelQueue k txs).persist = k.persist ∧
+      (∀ h', Eligible k.c h' → Eligible (kernelQueue k txs).c h') ∧
+      ∀ e ∈ txs, isFinalized k e.1 = false →
+        ∀ limit, (kernelQueue k txs).c.queue.length ≤ limit →
+          ∃ v, (e.1, v) ∈ (retrieve (kernelQueue k txs).c limit).2 := by
+  induction txs with
+  | nil => intro k hI; simp [kernelQueue, hI]
+  | cons t rest ih =>
+    intro k hI
+    obtain ⟨h, v, ts⟩ := t
+    by_cases hf : isFinalized k h = true
+    · have hk : kernelQueue k ((h, v, ts) :: rest) = kernelQueue k rest := by simp [kernelQueue, hf]
+      rw [hk]
+      have := ih k hI
+      refine ⟨this.1, this.2.1, this.2.2.1, ?_⟩
+      intro e he hnf
+      rcases List.mem_cons.mp he with he | he
+      · subst he; simp [hf] at hnf
+      · exact this.2.2.2 e he hnf
+    · have hk : kernelQueue k ((h, v, ts) :: rest) =
+          kernelQueue { k with c := enqueue k.c h v ts } rest := by simp [kernelQueue, hf]
+      rw [hk]
+      have hen := enqueue_eligible k.c hI h v ts
+      have := ih { k with c := enqueue k.c h v ts } hen.1
+      refine ⟨this.1, this.2.1, fun h' he => this.2.2.1 h' (hen.2.2 h' he), ?_⟩
+      intro e he hnf
+      rcases List.mem_cons.mp he with he | he
+      · subst he
+        intro limit hl
+        exact eligible_retrieved _ h (this.2.2.1 h hen.2.1) limit hl
+      · exact this.2.2.2 e he (by simpa [isFinalized] using hnf)
+
+/-- the scenario of a persisted, unfinalized transaction that a peer queues again after retrieval -/
+example :
+    let k0 : K := kernelQueue emptyK [(1, 1, 10)]
+    let k1 : K := persistTx { k0 with c := (retrieve k0.c 5).1 } 1
+    (retrieve (kernelQueue k1 [(1, 2, 11)]).c 5).2 = [(1, 2)] := by decide
+
+/-- a finalized transaction is skipped by the peer path -/
+example : (kernelQueue (finalizeTx emptyK 1) [(1, 1, 10)]).c = empty := by decide
+
+/-- **kernel_store_never_eligible**: `Node.CacheStoreTransactions` never touches the scheduling
+    records, whatever the persistence state of the transactions. -/
+theorem kernel_store_never_eligible (txs : List (Hash × Body)) :
+    ∀ k : K, (kernelStore k txs).c.queue = k.c.queue ∧ (kernelStore k txs).c.order = k.c.order ∧
+      (kernelStore k txs).persist = k.persist := by
+  induction txs with
+  | nil => intro k; simp [kernelStore]
+  | cons t rest ih =>
+    intro k
+    obtain ⟨h, v⟩ := t
+    by_cases hp : isPersisted k h = true
+    · simp only [kernelStore, hp, if_true]; exact ih k
+    · simp only [kernelStore, hp, if_false, Bool.false_eq_true]
+      have h1 := ih { k with c := store k.c h v }
+      have h2 := store_not_eligible k.c h v
+      simp only [step] at h2
+      exact ⟨h1.1.trans h2.1, h1.2.1.trans h2.2, h1.2.2⟩
+
+/-- `Node.QueueTransaction`: a finalized transaction is left alone; otherwise, when the call
+    succeeds, the transaction is eligible afterwards. -/
+theorem rpc_queue_eligible_unless_finalized (k : K) (hI : OrderInv k.c) (h : Hash) (v : Body)
+    (valid : Bool) (ts : Nat) :
+    (isFinalized k h = true → (rpcQueue k h v valid ts).1 = k) ∧
+    (isFinalized k h = false → (rpcQueue k h v valid ts).2 = true →
+      Eligible (rpcQueue k h v valid ts).1.c h) := by
+  constructor
+  · intro hf; simp [rpcQueue, hf]
+  · intro hf hok
+    have hen := enqueue_eligible k.c hI h v ts
+    unfold rpcQueue at hok ⊢
+    simp only [hf, Bool.false_eq_true, if_false] at hok ⊢
+    cases hl : lookup h k.c.payload with
+    | some b => simp only [hl]; exact hen.2.1
+    | none =>
+      simp only [hl] at hok ⊢
+      cases valid with
+      | true => simp only [if_true]; exact hen.2.1
+      | false => simp at hok
+
+/-- the index invariant holds in every state the storage methods can reach -/
+theorem orderInv_step (s : S) (hI : OrderInv s) (op : Op) : OrderInv (step s op).1 := by
+  cases op with
+  | store h v =>
+    simp only [step, store]
+    cases hl : lookup h s.payload with
+    | some b => exact hI
+    | none =>
+      intro h' hm
+      have := hI h' hm
+      refine ⟨this.1, ?_⟩
+      rcases this.2 with ⟨v', hv'⟩
+      by_cases hh : h = h'
+      · subst hh; rw [hl] at hv'; cases hv'
+      · exact ⟨v', by simp only; rw [lookup_put_other h' h v s.payload hh]; exact hv'⟩
+  | queue h v ts => exact (enqueue_eligible s hI h v ts).1
+  | retrieve limit =>
+    simp only [step, retrieve]
+    intro h hm
+    simp only [List.mem_filter, decide_eq_true_eq] at hm
+    rcases hI h hm.1 with ⟨⟨ts, hq⟩, hv⟩
+    refine ⟨⟨ts, ?_⟩, hv⟩
+    simp only [List.mem_filter, decide_eq_true_eq]
+    refine ⟨hq, ?_⟩
+    intro hp
+    exact hm.2 (List.mem_map.mpr ⟨(ts, h), hp, rfl⟩)
+  | remove hs =>
+    simp only [step, remove]
+    intro h hm
+    simp only [List.mem_filter, decide_eq_true_eq] at hm
+    rcases hI h hm.1 with ⟨hq, v, hv⟩
+    refine ⟨hq, v, ?_⟩
+    have := lookup_filter h (fun k => k ∉ hs) s.payload
+    simp only [hm.2, not_false_eq_true, decide_true, if_true] at this
+    rw [← hv]; simpa using this
+  | get h => exact hI
+
+theorem orderInv_empty : OrderInv empty := by intro h hm; simp [empty] at hm
 
 end Mixin.C23
